@@ -30,20 +30,23 @@ import (
 //	           in any order, with right/wrong/absent checksum and tampering.
 
 type c30Case struct {
-	Mode     string       `json:"mode"` // roundtrip | stream
-	Batch    lib.BatchIPC `json:"batch"`
-	Compress bool         `json:"compress"`
-	Level    int          `json:"level"` // vgirpc.Compression.Level (roundtrip)
-	Base     string       `json:"base"`  // roundtrip: threshold = size(lo|hi) + Delta
-	Delta    int64        `json:"delta"`
-	Elems    []string     `json:"elems,omitempty"` // stream: data | log | error | pointer
-	WithSHA  bool         `json:"with_sha"`        // stream: pointer carries the checksum
-	Tamper   string       `json:"tamper,omitempty"` // flip | truncate | append | wrongsha
-	TamperAt int          `json:"tamper_at"`        // per-mille position
-	TamperBit int         `json:"tamper_bit"`
+	Mode      string       `json:"mode"` // roundtrip | stream
+	Batch     lib.BatchIPC `json:"batch"`
+	Compress  bool         `json:"compress"`
+	Level     int          `json:"level"` // vgirpc.Compression.Level (roundtrip)
+	Base      string       `json:"base"`  // roundtrip: threshold = size(lo|hi) + Delta
+	Delta     int64        `json:"delta"`
+	Elems     []string     `json:"elems,omitempty"`  // stream: data | log | error | pointer
+	WithSHA   bool         `json:"with_sha"`         // stream: pointer carries the checksum
+	Tamper    string       `json:"tamper,omitempty"` // flip | truncate | append | wrongsha
+	TamperAt  int          `json:"tamper_at"`        // per-mille position
+	TamperBit int          `json:"tamper_bit"`
 	// Entropy > 0 appends a binary column holding that many pseudo-random
 	// bytes per row (generated in the run from EntropySeed, so the case stays
 	// small): data a compressor cannot shrink — hashes, embeddings, blobs.
+	// Overlap: a second batch is externalised (same configuration) while the
+	// first one's upload is still in flight
+	Overlap     bool  `json:"overlap,omitempty"`
 	Entropy     int   `json:"entropy,omitempty"`
 	EntropySeed int64 `json:"entropy_seed,omitempty"`
 }
@@ -136,6 +139,9 @@ func genC30(t *rapid.T) c30Case {
 		if rapid.IntRange(0, 3).Draw(t, "tamper?") == 0 {
 			c.Tamper = []string{"flip", "truncate", "append"}[rapid.IntRange(0, 2).Draw(t, "tamper")]
 		}
+		if c.Tamper == "" && rapid.IntRange(0, 3).Draw(t, "overlap?") == 0 {
+			c.Overlap = true
+		}
 		if rapid.IntRange(0, 3).Draw(t, "entropy?") == 0 {
 			c.Entropy = []int{64, 512, 4096}[rapid.IntRange(0, 2).Draw(t, "entropy")]
 			c.EntropySeed = int64(rapid.IntRange(1, 1<<30).Draw(t, "entropyseed"))
@@ -193,6 +199,11 @@ func refSizes(rec arrow.RecordBatch) (lo, hi int64) {
 type memStorage struct {
 	mu      sync.Mutex
 	uploads []memUpload
+	// hold, when set, makes the first Upload behave like a PUT in progress: it
+	// announces itself on entered and reads the bytes it was handed only after
+	// proceed is closed (a backend streams the slice for as long as the request lasts)
+	hold             bool
+	entered, proceed chan struct{}
 }
 
 type memUpload struct {
@@ -200,6 +211,14 @@ type memUpload struct {
 }
 
 func (m *memStorage) Upload(data []byte, schema *arrow.Schema, contentEncoding string) (string, error) {
+	m.mu.Lock()
+	wait := m.hold
+	m.hold = false
+	m.mu.Unlock()
+	if wait {
+		close(m.entered)
+		<-m.proceed
+	}
 	cp := append([]byte{}, data...)
 	url, path := theBlobOrigin().put(cp, contentEncoding)
 	m.mu.Lock()
@@ -347,7 +366,37 @@ func runC30Roundtrip(c c30Case, orig lib.BatchM, out *lib.Outcome) {
 		}
 	}()
 
-	ext, extMeta, err := vgirpc.MaybeExternalizeBatch(orig.Rec, orig.Meta, cfg)
+	var ext arrow.RecordBatch
+	var extMeta arrow.Metadata
+	var err error
+	if c.Overlap && lo >= thr {
+		// another call externalises its own batch while this one's upload is in flight
+		out.Label("overlapping-upload")
+		st.hold, st.entered, st.proceed = true, make(chan struct{}), make(chan struct{})
+		done := make(chan struct{})
+		go func() {
+			defer close(done)
+			ext, extMeta, err = vgirpc.MaybeExternalizeBatch(orig.Rec, orig.Meta, cfg)
+		}()
+		select {
+		case <-st.entered:
+			other := withEntropy(c.Batch.Unpack(), 300, c.EntropySeed+7)
+			st2 := &memStorage{}
+			if e2, _, err2 := vgirpc.MaybeExternalizeBatch(other.Rec, other.Meta, c30Config(st2, 1, c)); err2 == nil && e2 != other.Rec {
+				e2.Release()
+			}
+			for _, u := range st2.uploads {
+				theBlobOrigin().drop(u.path)
+			}
+			other.Rec.Release()
+			close(st.proceed)
+		case <-done:
+			// nothing was uploaded (an error, or below the threshold after all)
+		}
+		<-done
+	} else {
+		ext, extMeta, err = vgirpc.MaybeExternalizeBatch(orig.Rec, orig.Meta, cfg)
+	}
 	if err != nil {
 		// the statement is about batches that were externalised; a refusal to
 		// externalise (e.g. an unsupported compression level) hands the caller
@@ -545,12 +594,12 @@ func runC30Stream(c c30Case, orig lib.BatchM, out *lib.Outcome) {
 
 var propC30 = lib.Prop[c30Case]{
 	ID: "C30",
-	Rule: "roundtrip cases: generated batch (1-5 columns of any supported type incl. nested/dictionary, 1-48 rows, user schema/field/batch metadata, optionally a column of 64-4096 incompressible bytes per row), threshold = the batch's buffer size (top-level or with children) -64..+64 or far away, zstd off/levels, " +
+	Rule: "roundtrip cases: generated batch (1-5 columns of any supported type incl. nested/dictionary, 1-48 rows, user schema/field/batch metadata, optionally a column of 64-4096 incompressible bytes per row, optionally with another batch externalised under the same configuration while the upload is in flight), threshold = the batch's buffer size (top-level or with children) -64..+64 or far away, zstd off/levels, " +
 		"optional tampering of the stored object; stream cases: pointer to a harness-assembled stream of 0-5 {data, log, EXCEPTION, pointer} batches in any order, checksum present/absent/wrong, bytes flipped/truncated/appended, zstd on/off. " +
 		"Non-trivial: a non-data batch follows the data batch in the fetched stream, or the threshold is within 64 bytes of the batch size.",
 	Gen: genC30,
 	Run: runC30,
-	Essential: []string{"near-threshold", "incompressible-column", "nondata-after-data", "roundtrip-ok", "below-threshold", "at-or-above-threshold", "tampered-refused",
+	Essential: []string{"near-threshold", "incompressible-column", "overlapping-upload", "nondata-after-data", "roundtrip-ok", "below-threshold", "at-or-above-threshold", "tampered-refused",
 		"expect:checksum-refusal", "expect:pointer-refusal", "expect:no-data-refusal", "expect:data", "compress"},
 	EssentialMin: 300,
 	Assumptions: []string{
